@@ -134,6 +134,21 @@ ZstViewsOK(r) == /\ \A i \in DOMAIN r.views : r.views[i].hi = r.n_hi /\ r.views[
                  /\ Len(r.views) = 12
                  /\ r.exact_ok /\ r.short_rejected /\ r.long_rejected
 
+\* the by-value iterator over such arrays (C06), O(1) steps only.  Lengths are recorded as deficits N - len, so the deque
+\* contract is plain arithmetic: next / next_back take one element, nth(k) / nth_back(k) take k + 1, every step yields an
+\* element (the array is far from exhausted), and len, both ends of size_hint, as_slice and as_mut_slice agree after each
+StepTakes(st) == CASE st.op = "start" -> 0
+                   [] st.op \in {"next", "next_back"} -> 1
+                   [] st.op \in {"nth", "nth_back"} -> st.arg + 1
+RECURSIVE TakenUpTo(_, _)
+TakenUpTo(steps, i) == IF i = 0 THEN 0 ELSE TakenUpTo(steps, i - 1) + StepTakes(steps[i])
+ZstIterOK(r) == /\ Len(r.steps) = 9
+                /\ \A i \in DOMAIN r.steps :
+                      LET st == r.steps[i] d == TakenUpTo(r.steps, i) IN
+                        st.some /\ st.len = d /\ st.lo = d /\ st.hi = d /\ st.slice = d /\ st.mslice = d
+                /\ r.count = TakenUpTo(r.steps, Len(r.steps))
+                /\ r.last_some
+
 HeapBackedKinds == {"box", "vec", "bslice"}
 NeedsBlock(v) == cfg.rec /\ v.kind \in HeapBackedKinds /\ Len(v.items) > 0 /\ ~Anonymous
 HeapInv ==
